@@ -209,7 +209,7 @@ _p('C04', 'The MAL compiler\'s output is the language the source text denotes',
             ('R13', 'malVisitor.visitAssociation')], floor=40)
 
 _p('C05', 'The instance model stays coherent under any history of edits',
-   ['R1', 'R2', 'R3', 'R4', 'R5', 'R18', 'R10', 'R22', 'R25'],
+   ['R1', 'R2', 'R3', 'R4', 'R5', 'R18', 'R10', 'R22', 'R17', 'R25'],
    decided=['R1: no Model mutator removes from a list it walks',
             'R18: neighbours through a field: both orientations tested explicitly (self-links included)',
             "R5': remove_asset calls the raising remove_asset_from_association once per DISTINCT association",
@@ -297,7 +297,7 @@ _p('C09', 'Attack-graph structure and lookup indexes stay consistent in any hist
             ('R4', 'AttackGraph.add_attacker'), ('R7', 'AttackGraph.__deepcopy__')])
 
 _p('C10', 'Saving and loading an attack graph preserves it',
-   ['R8', 'R4', 'R2', 'R10', 'R22', 'R25'],
+   ['R8', 'R4', 'R2', 'R10', 'R22', 'R17', 'R25'],
    decided=['R8 i-ii: all node / attacker keys written by to_dict are read by _from_dict (compromised_by is a '
             'documented redundancy), unguarded reads are always written',
             'R8 iii: str(float)<->float, str(bool)<->== \'True\', list<->list, ids used as mapping keys are '
@@ -397,7 +397,7 @@ _p('C17', 'Malformed MAL source is rejected, never half-compiled',
    anchors=[('R9', 'MalCompiler.compile')], floor=2)
 
 _p('C15', 'Language graph mirrors the language and over-approximates every attack graph',
-   ['R2', 'R3', 'R9', 'R12', 'R18', 'R22', 'R20', 'R14', 'R17', 'R10', 'R25'],
+   ['R2', 'R3', 'R9', 'R12', 'R18', 'R22', 'R20', 'R14', 'R17', 'R10', 'R19', 'R25'],
    decided=['R2: super_assets/sub_assets and step children/parents are created pairwise (P3, P4)',
             'R9b: lookups of super asset, association ends, sub-type, target asset and target step are '
             'each followed by a test whose failing branch raises',
@@ -433,7 +433,7 @@ _p('C18', 'Legacy model loaders agree with the native loader',
             ('R8', 'load_model_from_version_0_0_39._process_model')], floor=8)
 
 _p('C19', 'Neo4j export is isomorphic to what is exported, and import inverts it',
-   ['R16', 'R15', 'R10', 'R22', 'R25'],
+   ['R16', 'R15', 'R10', 'R22', 'R8', 'R25'],
    decided=['R16a: one database node per asset / attack step, collected under a guarded-unique key',
             'R16b: relationships are accumulated without loss; each linked pair yields two relationships with '
             'swapped end points and the two field labels; one relationship per child edge',
